@@ -632,3 +632,186 @@ func isIdentOf(info *types.Info, e ast.Expr, v *types.Var) bool {
 }
 
 func insideAny(pos token.Pos, lit *ast.FuncLit) bool { return pos >= lit.Pos() && pos <= lit.End() }
+
+// ---------------------------------------------------------------- X2c / X2d / X2e / N5  (trackers and option defaults)
+
+// x2cCapField: what cap() of each tracker returns — the deque treats cap() as the length from
+// which a plain push can fail (it evicts / waits when cap() <= len()).
+var x2cCapField = map[string]string{
+	"queueHardLimitTracker": "capacity",  // a plain push fails exactly at the fixed capacity
+	"queueLimitTrackerImpl": "softQuota", // without burst credit a push is refused from the soft quota on, not only at the hard limit
+}
+
+func ruleTracker2(c *Ctx) {
+	R := c.R
+	p := c.P
+	R.Rule("X2c", "cap() of each tracker returns the bound from which add() can refuse (hard tracker: capacity; quota tracker: softQuota — a push without credit is refused from the soft quota on, so force pushes must evict and blocking pushes must wait from there)", 2)
+	R.Rule("X2d", "in every tracker add() the hard-limit refusal (ErrQueueFull) is decided before the credit refusal (ErrQueueNoCredit)", 1)
+	R.Rule("X2e", "the quota tracker lowers softQuota only under a guard that keeps it above 1 (cap() never reaches 0: a blocking push on an empty deque would wait for ever)", 1)
+	for _, f := range p.FuncsIn("pubsub") {
+		if f.Decl == nil || f.Decl.Recv == nil {
+			continue
+		}
+		tn := recvNamed(f)
+		info := f.Info()
+		switch f.Decl.Name.Name {
+		case "cap":
+			want, ok := x2cCapField[tn]
+			if !ok {
+				continue
+			}
+			got := ""
+			walkNoLit(f.Body, func(x ast.Node) bool {
+				if rs, ok := x.(*ast.ReturnStmt); ok && len(rs.Results) == 1 {
+					if se, ok := ast.Unparen(rs.Results[0]).(*ast.SelectorExpr); ok {
+						got = se.Sel.Name
+					}
+				}
+				return true
+			})
+			R.Check(got == want, "X2c", f.Name+"/bound", p.Position(f.Pos()), "returns "+want,
+				fmt.Sprintf("%s returns %q, not %q: the deque's notion of \"full\" no longer coincides with the point from which add() refuses, so a force push fails with an error instead of evicting and a blocking push returns an error instead of waiting", f.Name, got, want))
+		case "add":
+			var full, credit token.Pos
+			ast.Inspect(f.Body, func(x ast.Node) bool {
+				rs, ok := x.(*ast.ReturnStmt)
+				if !ok || len(rs.Results) != 1 {
+					return true
+				}
+				id, ok := ast.Unparen(rs.Results[0]).(*ast.Ident)
+				if !ok {
+					return true
+				}
+				// position of the condition that guards this return
+				guard := rs.Pos()
+				var child ast.Node = rs
+				for par := p.Parent(rs); par != nil; child, par = par, p.Parent(par) {
+					if ifs, ok := par.(*ast.IfStmt); ok && ast.Node(ifs.Body) == child {
+						guard = ifs.Cond.Pos()
+						break
+					}
+					if cc, ok := par.(*ast.CaseClause); ok && len(cc.List) > 0 {
+						guard = cc.List[0].Pos()
+						break
+					}
+					if _, ok := par.(*ast.FuncDecl); ok {
+						break
+					}
+				}
+				switch id.Name {
+				case "ErrQueueFull":
+					if full == 0 {
+						full = guard
+					}
+				case "ErrQueueNoCredit":
+					if credit == 0 {
+						credit = guard
+					}
+				}
+				return true
+			})
+			if credit != 0 {
+				R.Check(full != 0 && full < credit, "X2d", f.Name+"/full-before-credit", p.Position(f.Pos()), "ErrQueueFull is decided first",
+					f.Name+" tests the burst credit before the hard limit: at the hard limit with less than one credit the caller gets ErrQueueNoCredit instead of ErrQueueFull (and a sender that retries on no-credit spins at a full queue)")
+			}
+		}
+		// X2e: stores that lower softQuota
+		walkNoLit(f.Body, func(x ast.Node) bool {
+			inc, ok := x.(*ast.IncDecStmt)
+			if !ok || inc.Tok != token.DEC {
+				return true
+			}
+			se, ok := ast.Unparen(inc.X).(*ast.SelectorExpr)
+			if !ok || se.Sel.Name != "softQuota" {
+				return true
+			}
+			guarded := false
+			var child ast.Node = inc
+			for par := p.Parent(inc); par != nil; child, par = par, p.Parent(par) {
+				if ifs, ok := par.(*ast.IfStmt); ok && p.inside(child, ifs.Body) {
+					ast.Inspect(ifs.Cond, func(y ast.Node) bool {
+						be, ok := y.(*ast.BinaryExpr)
+						if !ok {
+							return true
+						}
+						l, r := exprStr(be.X), exprStr(be.Y)
+						if (be.Op == token.GTR && strings.HasSuffix(l, ".softQuota") && r == "1") || (be.Op == token.GEQ && strings.HasSuffix(l, ".softQuota") && r == "2") || (be.Op == token.LSS && l == "1" && strings.HasSuffix(r, ".softQuota")) {
+							guarded = true
+						}
+						return true
+					})
+				}
+				if _, ok := par.(*ast.FuncDecl); ok {
+					break
+				}
+			}
+			R.Check(guarded, "X2e", f.Name+"/quota-floor", p.Position(inc.Pos()), "softQuota-- under softQuota > 1",
+				f.Name+" lowers softQuota without the `softQuota > 1` floor: the quota can reach 0, cap() is then 0 and a blocking push waits on an empty deque for ever (the broker's event loop wedges in Send)")
+			_ = info
+			return true
+		})
+	}
+}
+
+// ruleN5: in an options Validate, a default that is computed from another
+// field is assigned after that field's own default.
+func ruleN5(c *Ctx) {
+	R := c.R
+	p := c.P
+	R.Rule("N5", "in QueueOptions.Validate a default computed from another option field is assigned after that field's own default (BurstCredit defaults to the soft quota, which itself defaults to the hard limit)", 1)
+	f := p.FuncNamed("pubsub.(*QueueOptions).Validate")
+	if f == nil {
+		R.Fail("N5", "pubsub.(*QueueOptions).Validate", "-", "not found")
+		return
+	}
+	recv := recvObject(f)
+	info := f.Info()
+	type asg struct {
+		field string
+		pos   token.Pos
+		reads map[string]bool
+	}
+	var all []asg
+	walkNoLit(f.Body, func(x ast.Node) bool {
+		as, ok := x.(*ast.AssignStmt)
+		if !ok || len(as.Lhs) != 1 || len(as.Rhs) != 1 {
+			return true
+		}
+		se, ok := ast.Unparen(as.Lhs[0]).(*ast.SelectorExpr)
+		if !ok {
+			return true
+		}
+		if id, ok := ast.Unparen(se.X).(*ast.Ident); !ok || info.Uses[id] != recv {
+			return true
+		}
+		a := asg{field: se.Sel.Name, pos: as.Pos(), reads: map[string]bool{}}
+		ast.Inspect(as.Rhs[0], func(y ast.Node) bool {
+			if r, ok := y.(*ast.SelectorExpr); ok {
+				if id, ok := ast.Unparen(r.X).(*ast.Ident); ok && info.Uses[id] == recv {
+					a.reads[r.Sel.Name] = true
+				}
+			}
+			return true
+		})
+		all = append(all, a)
+		return true
+	})
+	n := 0
+	for _, a := range all {
+		for g := range a.reads {
+			if g == a.field {
+				continue
+			}
+			for _, b := range all {
+				if b.field == g {
+					n++
+					R.Check(b.pos < a.pos, "N5", fmt.Sprintf("pubsub.(*QueueOptions).Validate/%s<-%s", a.field, g), p.Position(a.pos), "the default of "+g+" is assigned first",
+						fmt.Sprintf("Validate computes the default of %s from %s before %s has received its own default: with both unset the queue starts with the raw (zero or negative) value as burst credit, and is refused pushes the admission rules allow", a.field, g, g))
+				}
+			}
+		}
+	}
+	if n == 0 {
+		R.OK("N5", "pubsub.(*QueueOptions).Validate/no-dependent-defaults", p.Position(f.Pos()), "no default depends on another defaulted field")
+	}
+}
